@@ -69,6 +69,16 @@ func doProbe(name string) {
 		probeDump("stored n1/web1 of service web", im, err)
 		err = im.upsertService(peerA, "Web", []structs.CheckServiceNode{probeInst("n1", "", "Web", "web1")})
 		probeDump("received resource Web with instance web1 of service Web", im, err)
+	case "node-locality":
+		in := probeInst("n1", "", "web", "web1")
+		in.Node.Locality = &structs.Locality{Region: "us-east-1", Zone: "a"}
+		in.Service.Locality = &structs.Locality{Region: "us-east-1", Zone: "a"}
+		err := im.upsertService(peerA, "web", []structs.CheckServiceNode{in})
+		probeDump("received n1 with node and service locality us-east-1/a", im, err)
+		_, csn, _ := im.store.CheckServiceNodes(nil, "web", nil, peerA)
+		for _, c := range csn {
+			fmt.Printf("   stored node locality=%v service locality=%v\n", c.Node.Locality, c.Service.Locality)
+		}
 	default:
 		fmt.Println("unknown probe")
 	}
